@@ -21,7 +21,11 @@ for pid in args:
         os.makedirs(d, exist_ok=True)
         shutil.copy(os.path.join(src, v + ".diff"), os.path.join(d, "patch.diff"))
         shutil.copy(os.path.join(src, "demo%s.py" % v), os.path.join(d, "demo.py"))
-        ok, info = seeded.confirm(os.path.join(d, "patch.diff"), os.path.join(d, "demo.py"))
+        try:
+            ok, info = seeded.confirm(os.path.join(d, "patch.diff"), os.path.join(d, "demo.py"))
+        except SystemExit as exc:
+            print(pid, NAMES[v], "NOT CONFIRMED (%s)" % str(exc)[:120])
+            continue
         n = notes.get(v, {})
         meta = {"property": pid, "checks": [pid], "summary": n.get("summary", ""), "needs_to_manifest": n.get("needs_to_manifest", ""),
                 "files": n.get("files", []), "origin": "independent sub-agent given only the property text and a scratch worktree",
